@@ -610,10 +610,9 @@ func (ex *Exec) evalDesignator(text string, env *SpecEnv) []designator {
 	if !ok {
 		ex.specFail("assigns %s: expected x.f, x.f[*], x[*], x.* or *p", text)
 	}
-	base := ex.evalSpec(fe.X, env)
-	p, ok := ex.autoDeref(base)
+	p, ok := ex.lvaluePtr(fe.X, env)
 	if !ok {
-		ex.specFail("assigns %s: %s is not a pointer", text, fe.X)
+		ex.specFail("assigns %s: %s is not a pointer (or a field path starting at one)", text, fe.X)
 	}
 	t := p.pointee()
 	obj, index, _ := types.LookupFieldOrMethod(types.NewPointer(t), true, env.pkg, fe.Name)
@@ -635,6 +634,41 @@ func (ex *Exec) evalDesignator(text string, env *SpecEnv) []designator {
 		}
 	}
 	return ex.ptrDesignators(cur)
+}
+
+// lvaluePtr: the location an expression denotes - a pointer value, or a (nested) struct field reached from one (x.f.g).
+func (ex *Exec) lvaluePtr(e Expr, env *SpecEnv) (PtrV, bool) {
+	if fe, ok := e.(EField); ok {
+		if base, ok := ex.lvaluePtr(fe.X, env); ok {
+			t := base.pointee()
+			if _, isStruct := under(t).(*types.Struct); isStruct {
+				obj, index, _ := types.LookupFieldOrMethod(types.NewPointer(t), true, env.pkg, fe.Name)
+				if obj == nil {
+					if n, ok := derefNamed(t); ok && n.Obj().Pkg() != nil {
+						obj, index, _ = types.LookupFieldOrMethod(types.NewPointer(t), true, n.Obj().Pkg(), fe.Name)
+					}
+				}
+				if fv, isVar := obj.(*types.Var); isVar && fv.IsField() {
+					cur := base
+					for i, fi := range index {
+						cur = cur.withStep(Step{Field: fi}, nil)
+						if i < len(index)-1 {
+							if _, isPtr := under(cur.pointee()).(*types.Pointer); isPtr {
+								cur = ex.asPtr(ex.load(cur, env.st))
+							}
+						}
+					}
+					if _, isPtr := under(cur.pointee()).(*types.Pointer); isPtr {
+						return ex.asPtr(ex.load(cur, env.st)), true
+					}
+					if _, isStruct := under(cur.pointee()).(*types.Struct); isStruct {
+						return cur, true
+					}
+				}
+			}
+		}
+	}
+	return ex.autoDeref(ex.evalSpec(e, env))
 }
 
 func (ex *Exec) ptrDesignators(p PtrV) []designator {
